@@ -119,6 +119,7 @@ type harnessResult struct {
 var (
 	flagCheck   = flag.String("check", "", "check config (JSON)")
 	flagTier    = flag.String("tier", "quick", "quick|thorough")
+	flagNoFailFast = flag.Bool("nofailfast", false, "explore every harness even after a violation that is not a known finding")
 	flagWall    = flag.Int("wall", 0, "wall-clock budget per harness exploration in seconds (0: 20 min quick, 90 min thorough)")
 	flagRepo    = flag.String("repo", "/repo", "repository under test")
 	flagVerif   = flag.String("verif", "/verif", "verif root")
@@ -191,8 +192,29 @@ func main() {
 		defer os.RemoveAll(crossDir)
 	}
 	var results []*harnessResult
+	knownEarly := loadKnown(chk.Property)
+	newViolation := func(r *harnessResult) bool {
+		for _, v := range r.violations {
+			if matchKnown(knownEarly, chk.Property, r.h.Name, v.Label) == nil {
+				return true
+			}
+		}
+		return false
+	}
+	failed := false
 	for _, h := range hs {
+		if failed && !*flagNoFailFast {
+			// a violation that is not a known finding has been found: the verdict of the
+			// check is settled, the remaining harnesses would only cost time on a tree
+			// whose state space may have blown up
+			fmt.Printf("SKIPPED harness %s: a violation was already found\n", h.Name)
+			continue
+		}
+		isKnownLabel = func(label string) bool { return matchKnown(knownEarly, chk.Property, h.Name, label) != nil }
 		r := runHarness(prog, pkgs, h, seed)
+		if newViolation(r) {
+			failed = true
+		}
 		if h.Iface != nil {
 			if msg := checkIface(prog, h.Iface); msg != "" {
 				r.inconclusive = append(r.inconclusive, msg)
@@ -651,6 +673,10 @@ func runHarness(prog *ssa.Program, pkgs map[string]*ssa.Package, h *Harness, see
 	return res
 }
 
+// isKnownLabel tells whether a violation label of the harness being explored is an open
+// known finding (those do not stop the exploration).
+var isKnownLabel func(label string) bool
+
 func explore(prog *ssa.Program, entry *ssa.Function, h *Harness, mapOrder int, res *harnessResult, twin bool) {
 	params := paramsFor(h)
 	if twin {
@@ -745,6 +771,17 @@ func explore(prog *ssa.Program, entry *ssa.Function, h *Harness, mapOrder int, r
 				}
 				if twin && len(res.violations) > 0 {
 					stop = true
+				}
+				if !twin && !*flagNoFailFast {
+					fresh := 0
+					for _, v := range res.violations {
+						if isKnownLabel == nil || !isKnownLabel(v.Label) {
+							fresh++
+						}
+					}
+					if fresh >= 3 {
+						stop = true // enough counterexamples to report
+					}
 				}
 				if len(res.inconclusive) >= 20 {
 					stop = true
